@@ -119,10 +119,10 @@ def padSecs (fill padLen : Nat) : List Sec :=
      else [(fill, List.replicate (padLen % Generated.spacesLen) spaceG)])
 
 /-- `vec.last_mut().unwrap().1 = &wrap_config.right_symbol` on the last row of `result`. -/
-def setLastText (g : G) : Row → Row
-  | [] => []
-  | [(st, _)] => [(st, [g])]
-  | s :: r => s :: setLastText g r
+def setLastText (g : G) (r : Row) : Row :=
+  match r.getLast? with
+  | none => r
+  | some s => r.dropLast ++ [(s.1, [g])]
 
 /-- `result.last_mut().unwrap().extend(…)` / modification of the last row. -/
 def modifyLast (f : Row → Row) : List Row → List Row
